@@ -434,6 +434,45 @@ def r_one_link_out(ck: Checker) -> None:
         ck.need(n >= 3, "comparison literals reach an emission site")
 
 
+def r_shape_predicates(ck: Checker) -> None:
+    """TABLE the four shape tests every pass guards its steps with: (node kind, atom kind, symbol kind) -> answer.
+    The side-condition rules of the passes reason with `is_predicate(x)` as a fact; what that fact MEANS is decided here."""
+    rows = 0
+    atom_kinds = ["SymbolicAtom", "Comparison", "BodyAggregate", "Aggregate", "BooleanConstant", "TheoryAtom"]
+    for name, want in (
+        ("is_predicate", lambda k, a, s_: k == "Literal" and a == "SymbolicAtom" and s_ == "Function"),
+        ("is_comparison", lambda k, a, s_: k == "Literal" and a == "Comparison"),
+        ("is_body_aggregate", lambda k, a, s_: k == "Literal" and a == "BodyAggregate"),
+        ("is_conditional", lambda k, a, s_: k == "ConditionalLiteral"),
+    ):
+        func = ck.func(f"utils.ast:{name}")
+        p0 = func.params()[0]
+        for kind in ("Literal", "ConditionalLiteral"):
+            for atom in (atom_kinds if kind == "Literal" else ["-"]):
+                for sym in (("Function", "UnaryOperation", "Pool") if atom == "SymbolicAtom" and name == "is_predicate" else ("-",)):
+                    vals = {f"{p0}.ast_type": f"ASTType.{kind}"}
+                    if atom != "-":
+                        vals[f"{p0}.atom.ast_type"] = f"ASTType.{atom}"
+                    if sym != "-":
+                        vals[f"{p0}.atom.symbol.ast_type"] = f"ASTType.{sym}"
+                    it = ck.interp(func, Pins.of(vals=vals))
+                    truths = it.return_truths()
+                    exp = bool(want(kind, atom, sym))
+                    rows += 1
+                    ck.add(f"{name}({kind}{'/' + atom if atom != '-' else ''}{'/' + sym if sym != '-' else ''})", truths == {exp}, func, func.node, f"answers {sorted(map(str, truths))}, expected {exp}",
+                           "`is_predicate` is the guard under which passes read `.atom.symbol.name/.arguments` and treat a literal as a plain atom of a predicate: true for a classically negated atom (`-p(X)`, a UnaryOperation symbol) or a pool it makes them crash or treat `-p` as `p`; the other three decide which branch of every body scan a literal takes")
+    ck.notes["C05.shape.rows"] = rows
+    # the two views of the variables of a body: bound only / everything that is global (bound or not)
+    cb = ck.func("utils.ast:collect_bound_variables")
+    gv = ck.func("utils.ast:global_vars_inside_body")
+    rb = [r for r in returns_of(cb) if r.value is not None]
+    rg = [r for r in returns_of(gv) if r.value is not None]
+    ck.add("collect_bound_variables = the bound half of the binding analysis", len(rb) == 1 and same(unparse(rb[0].value), f"collect_binding_information_body({cb.params()[0]})[0]"), cb, cb.node, f"`{fmt(rb[0]) if rb else None}`", "")
+    okg = len(rg) == 1 and (same(unparse(rg[0].value), f"set.union(*collect_binding_information_body({gv.params()[0]}))") or same(unparse(rg[0].value), f"collect_binding_information_body({gv.params()[0]})[0] | collect_binding_information_body({gv.params()[0]})[1]"))
+    ck.add("global_vars_inside_body = bound AND unbound global variables", okg, gv, gv.node, f"`{fmt(rg[0]) if rg else None}`",
+           "a variable bound through `slot(2*X)` is global for gringo although ngo's binder analysis lists it as unbound: every 'is this variable local?' test needs both halves")
+
+
 def r_replace_stms(ck: Checker) -> None:
     """inline_replace_stms is a map: one result per given literal / term, position by position (it is also applied to the
     term tuples of aggregate elements, where a dropped duplicate changes which tuples coincide)"""
@@ -601,6 +640,7 @@ RULES = RULES_EXTRA + [
     Rule("C05.chain-split", P, r_chain_split),
     Rule("C05.chain-places", P + ("C03", "C11", "C14"), r_chain_places),
     Rule("C05.one-link-out", P + ("C03", "C11", "C14"), r_one_link_out),
+    Rule("C05.TABLE.shape-tests", P + ("C03", "C04"), r_shape_predicates),
     Rule("C05.replace-stms", P, r_replace_stms),
     Rule("C05.TABLE.equality", P, r_equality_table),
     Rule("C05.C4.local-only", P + ("C04",), r_local_only),
